@@ -247,8 +247,65 @@ def replay_unverified_ptr(spec, vals, obligation, desc):
     return body, judge
 
 
+def sandbox_setup(vals, var='sb'):
+    return ('  static rlbox_sandbox<vsbx> %s; %s.slot = %d;\n' % (var, var, _int(vals, 'in_slot')))
+
+
+def replay_assign_raw(spec, vals, obligation, desc):
+    v = _int(vals, 'in_val')
+    pt = spec['ptype']
+    body = PRE + 'int main(){\n' + backend_setup(vals) + sandbox_setup(vals)
+    if spec['wrap'] == 'tainted':
+        body += '  tainted<%s, vsbx> t; std::memset(&t, 0, sizeof(t));\n' % pt
+    else:
+        body += '  alignas(8) static unsigned char cell[8]; auto& t = *reinterpret_cast<tainted_volatile<%s, vsbx>*>(cell);\n' % pt
+    body += ('  int aborted = 0; mathint V = (mathint)%dULL;\n'
+             '  try { t.assign_raw_pointer(sb, reinterpret_cast<%s>(%dULL)); } catch (const std::runtime_error&) { aborted = 1; }\n'
+             '  std::printf("aborted=%%d\\n", aborted); pr("value", V);\n'
+             '  std::printf("inside_this_sandbox=%%d\\n", (int)in_reg(sb.slot, V));\n' % (v, pt, v))
+    if spec['wrap'] == 'tainted':
+        body += '  pr("stored", (mathint)*reinterpret_cast<uintptr_t*>(&t)); std::printf("stored_ok=%d\\n", (int)((mathint)*reinterpret_cast<uintptr_t*>(&t) == V));\n'
+    else:
+        body += '  pr("stored", (mathint)*reinterpret_cast<uint32_t*>(cell)); std::printf("stored_ok=%d\\n", (int)((mathint)*reinterpret_cast<uint32_t*>(cell) == V - (mathint)vsbx::region_base[sb.slot]));\n'
+    body += '  return 0; }\n'
+
+    def judge(d):
+        cl = _clause(desc)
+        returned = d.get('aborted') == '0'
+        if cl == 'inside_or_abort':
+            return returned and d.get('inside_this_sandbox') == '0'
+        if cl in ('stored', 'stored_guest_repr'):
+            return returned and d.get('stored_ok') == '0'
+        if 'precondition' in obligation:
+            return d.get('aborted') == '1' and d.get('inside_this_sandbox') == '1'
+        return False
+    return body, judge
+
+
+def replay_accept_pointer(spec, vals, obligation, desc):
+    v = _int(vals, 'in_val')
+    body = PRE + 'int main(){\n' + backend_setup(vals) + sandbox_setup(vals)
+    body += ('  int aborted = 0; mathint V = (mathint)%dULL; uintptr_t got = 0;\n'
+             '  try { auto r = sb.UNSAFE_accept_pointer(reinterpret_cast<int*>(%dULL)); got = (uintptr_t)r.UNSAFE_unverified(); } catch (const std::runtime_error&) { aborted = 1; }\n'
+             '  std::printf("aborted=%%d\\n", aborted); pr("value", V); pr("returned", (mathint)got);\n'
+             '  std::printf("inside_this_sandbox=%%d\\n", (int)in_reg(sb.slot, V)); std::printf("stored_ok=%%d\\n", (int)((mathint)got == V));\n  return 0; }\n' % (v, v))
+
+    def judge(d):
+        cl = _clause(desc)
+        returned = d.get('aborted') == '0'
+        if cl == 'inside_or_abort':
+            return returned and d.get('inside_this_sandbox') == '0'
+        if cl == 'returned_value':
+            return returned and d.get('stored_ok') == '0'
+        if 'precondition' in obligation:
+            return d.get('aborted') == '1' and d.get('inside_this_sandbox') == '1'
+        return False
+    return body, judge
+
+
 KINDS = {'convert': replay_convert, 'ptr_arith': replay_ptr_arith, 'arr_index': replay_arr_index,
-         'check_range': replay_check_range, 'unverified_ptr': replay_unverified_ptr}
+         'check_range': replay_check_range, 'unverified_ptr': replay_unverified_ptr,
+         'assign_raw': replay_assign_raw, 'accept_pointer': replay_accept_pointer}
 
 
 def register(kind, fn):
